@@ -98,7 +98,7 @@ theorem retry_kept_instStep (s s' : St) (g i : Nat) (f : G → Inst → Option I
 
 /-- a forced start appends a waiting instance to the record's generation and makes it current -/
 theorem start_force_spec (s : St) (k : Nat) (r : Rec) (y : G) (hfn : r.hasFn = true)
-    (hy : (cancelOpt s r.gen r.cancelOf).gens[r.gen]? = some y) :
+    (hy : (cancelOpt s r.gen r.cancelOf).gens[r.gen]? = some y) (hlive : s.ctx ≠ some 0) :
     ∃ r' y' x, (start s k r true).key k = some r' ∧ r'.exited = false ∧ r'.gen = r.gen ∧
       r'.cur = some y.insts.length ∧ (start s k r true).gens[r.gen]? = some y' ∧
       y'.insts[y.insts.length]? = some x ∧ x.st = .waiting ∧ x.cancelled = false := by
@@ -107,7 +107,7 @@ theorem start_force_spec (s : St) (k : Nat) (r : Rec) (y : G) (hfn : r.hasFn = t
     { y with insts := y.insts ++ [{ rid := r.id, data := r.data, waitOn := y.last }], last := some y.insts.length },
     { rid := r.id, data := r.data, waitOn := y.last }, ?_, rfl, rfl, rfl, ?_, by simp, rfl, rfl⟩
   · simp [start, hy, hfn]
-  · simp [start, hy, gens_modG, hfn]
+  · simp [start, hy, gens_modG, hfn, hlive]
 
 theorem gens_cancelOpt_some (s : St) (g : Nat) (o : Option Nat) (y : G) (hy : s.gens[g]? = some y) :
     ∃ y', (cancelOpt s g o).gens[g]? = some y' := by
@@ -119,17 +119,19 @@ theorem gens_cancelOpt_some (s : St) (g : Nat) (o : Option Nat) (y : G) (hy : s.
 
 /-- the timer fires after the epoch ends; with a context it starts a new instance -/
 theorem retry_fires (s : St) (k e : Nat) (r : Rec) (hK : KInv s) (hk : s.key k = some r)
-    (hex : r.exited = true) (hd : r.deferRetry = some e) (he : e < s.epoch) (hctx : s.ctx.isSome = true) :
+    (hex : r.exited = true) (hd : r.deferRetry = some e) (he : e < s.epoch) (hlive : isLive s.ctx = true) :
     ∃ s' r' i y x, step s (.timerRetry k) = some s' ∧ s'.key k = some r' ∧ r'.exited = false ∧
       r'.cur = some i ∧ s'.gens[r'.gen]? = some y ∧ y.insts[i]? = some x ∧ x.st = .waiting ∧
       x.cancelled = false := by
+  have hctx : s.ctx.isSome = true := by cases hcc : s.ctx <;> simp [hcc, isLive] at hlive ⊢
+  have hnd : s.ctx ≠ some 0 := by intro e0; rw [e0] at hlive; simp [isLive] at hlive
   obtain ⟨c, hc⟩ := Option.isSome_iff_exists.1 hctx
   obtain ⟨y0, hy0, _⟩ := hK.genKey k r hk
   have hy0' : (setRec s k (some { r with deferRetry := none })).gens[r.gen]? = some y0 := hy0
   obtain ⟨y1, hy1⟩ := gens_cancelOpt_some _ r.gen r.cancelOf y0 hy0'
   obtain ⟨r', y', x, h1, h2, h3, h4, h5, h6, h7, h8⟩ :=
     start_force_spec (setRec s k (some { r with deferRetry := none })) k { r with deferRetry := none } y1
-      (hK.exFn k r hk (Or.inr hex)) hy1
+      (hK.exFn k r hk (Or.inr hex)) hy1 hnd
   refine ⟨start (setRec s k (some { r with deferRetry := none })) k { r with deferRetry := none } true,
     r', y1.insts.length, y', x, ?_, h1, h2, h4, ?_, h6, h7, h8⟩
   · have hctx' : ∀ v, (setRec s k v).ctx = some c := fun _ => hc
